@@ -14,6 +14,10 @@ numbers, except the final `β ⊖ δ̂` which absorbs the nonzero step), and on 
 `namespace Ufl`: the underflow-aware range theorems (`Rounding3U.logistic_range_ufl`, `rbf_range_ufl`) at this model with a
 flush-to-zero `exp`; `Monotone rnd` is `f64grid_mono`.
 
+`namespace Ufl2`: `Rounding3U.softmax_sum_error_ufl` with every hypothesis (including `hS`) discharged.
+`namespace LU`: `lu` / `solve` on the LU route WITH a row exchange (`[[1,2],[4,2]]`), `solve_backward_error` and
+`lu_backward_error` on it.  (The tie rule of this model is round-half-up, see `f64grid`.)
+
 `namespace AR`: a concrete `TS.arFit 2 … = some …` run in this model (C13), and `Rounding6.yuleWalker_residual` on it.
 -/
 namespace Cv.RoundingGrid
@@ -507,3 +511,121 @@ example (k : Gp.RBF (Fl f64grid)) (x y : Fl f64grid) (hv : 0 ≤ k.var.val) :
     0 ≤ (k.fwd x y).val ∧ (k.fwd x y).val ≤ k.var.val * (1 + f64grid.u) := rbf_range_ufl k x y hv
 
 end Cv.RoundingGrid.Ufl
+
+/-! ### softmax with underflow, every hypothesis discharged -/
+
+namespace Cv.RoundingGrid.Ufl2
+open Cv Cv.FlModel Cv.Rounding Cv.Rounding3U
+open Cv.RoundingGrid.Step (r0 r1 rnd_int)
+
+noncomputable local instance : ExpLnUfl f64grid := ExpLnUfl.flush f64grid (-745) (by norm_num)
+/-- a `MaxBot` structure on `Fl f64grid` (seed `−1000`) -/
+noncomputable local instance : MaxBot (Fl f64grid) :=
+  ⟨fun a b => @ite _ (a.val < b.val) (Classical.propDecidable _) b a, ⟨-1000⟩⟩
+
+noncomputable abbrev xs : List (Fl f64grid) := [⟨0⟩, ⟨-800⟩]
+
+theorem rm800 : f64grid.rnd (-800) = -800 := by simpa using rnd_int (-800) (by norm_num)
+
+theorem args_xs : softmaxArgs xs = [⟨0⟩, ⟨-800⟩] := by
+  simp [softmaxArgs, softmaxMax, MaxBot.fmax, MaxBot.negInf]
+  constructor <;> (apply Fl.ext; norm_num [r0, rm800])
+
+theorem exp0 : (Transc.exp (⟨0⟩ : Fl f64grid)) = ⟨1⟩ := by
+  apply Fl.ext
+  show (if (0 : ℝ) < -745 then 0 else Real.exp 0) = 1
+  rw [if_neg (by norm_num), Real.exp_zero]
+theorem exp800 : (Transc.exp (⟨-800⟩ : Fl f64grid)) = ⟨0⟩ := by
+  apply Fl.ext
+  show (if (-800 : ℝ) < -745 then 0 else Real.exp (-800)) = 0
+  rw [if_pos (by norm_num)]
+
+theorem sum_xs : (softmaxSum xs).val = 1 := by
+  unfold softmaxSum
+  rw [args_xs]
+  simp [exp0, exp800, r0, r1]
+
+/-- **`softmax_sum_error_ufl` with EVERY hypothesis discharged, at the genuine model with a flush-to-zero `exp`**:
+`x = (0, −800)`; `exp(−800)` underflows, the computed sum is `1 > 0` (`hS`), `3·2⁻⁵³ < 1` -/
+example : (softmax xs).length = 2 ∧ (∀ y ∈ softmax xs, 0 ≤ y.val) ∧
+    |(vals (softmax xs)).sum - 1| ≤ f64grid.γ 3 :=
+  softmax_sum_error_ufl xs (by rw [sum_xs]; norm_num) (by rw [f64grid_u]; norm_num)
+
+/-- and `0 ≤` cannot be improved to `0 <` here: the second probability is exactly `0` -/
+example : softmax xs = [⟨1⟩, ⟨0⟩] := by
+  have hS : softmaxSum xs = ⟨1⟩ := Fl.ext sum_xs
+  unfold softmax
+  rw [args_xs, hS]
+  simp only [List.map_cons, List.map_nil, exp0, exp800, List.cons.injEq, and_true]
+  constructor <;> (apply Fl.ext; simp [r0, r1])
+
+end Cv.RoundingGrid.Ufl2
+
+/-! ### the LU route with a row exchange at the genuine model -/
+
+namespace Cv.RoundingGrid.LU
+open Cv Cv.FlModel Cv.LA Cv.LA.Lu Cv.Rounding Cv.FactorRounding Cv.RoundingLU Finset
+open Cv.RoundingLU.Examples (mk_add mk_sub mk_mul mk_div mk_sub_zero zero_add_mk mk_eq_zero mk_abs mk_lt)
+open Cv.RoundingGrid.Step Cv.RoundingGrid.AR
+
+/-- a non-symmetric matrix with dyadic entries whose first pivot search exchanges the rows -/
+noncomputable abbrev Ag : List (Fl f64grid) := [⟨1⟩, ⟨2⟩, ⟨4⟩, ⟨2⟩]
+/-- its packed LU factor: `L = [[1,0],[1/4,1]]`, `U = [[4,2],[0,3/2]]`, rows exchanged -/
+noncomputable abbrev Fg : List (Fl f64grid) := [⟨4⟩, ⟨2⟩, ⟨1 / 4⟩, ⟨3 / 2⟩]
+
+theorem rm2 : f64grid.rnd (-2) = -2 := by simpa using rnd_int (-2) (by norm_num)
+theorem r32 : f64grid.rnd (3 / 2) = 3 / 2 := by have := rq 3 1 (by norm_num); norm_num at this; norm_num [this]
+
+theorem Ag_step0 : luStep 2 (Ag, [0, 1]) 0 = ([⟨4⟩, ⟨2⟩, ⟨1 / 4⟩, ⟨2⟩], [1, 0]) := by
+  have hc : luColumn 2 0 Ag = Ag := by
+    norm_num [luColumn, luDot, List.range_succ, rd, List.set, mk_sub_zero, r1, r4]
+  have hp : luPivot 2 0 Ag = 1 := by
+    norm_num [luPivot, List.range', rd, mk_abs, mk_lt]
+  have hs : swapRows 2 1 0 Ag = [⟨4⟩, ⟨2⟩, ⟨1⟩, ⟨2⟩] := rfl
+  have hsc : luScale 2 0 ([⟨4⟩, ⟨2⟩, ⟨1⟩, ⟨2⟩] : List (Fl f64grid)) = [⟨4⟩, ⟨2⟩, ⟨1 / 4⟩, ⟨2⟩] := by
+    norm_num [luScale, List.range', rd, mk_div, mk_eq_zero, List.set, rq4]
+  simp [luStep, hc, hp, hs, hsc, swapIdx]
+
+theorem Ag_step1 : luStep 2 ([⟨4⟩, ⟨2⟩, ⟨1 / 4⟩, ⟨2⟩], [1, 0]) 1 = (Fg, [1, 0]) := by
+  have hc : luColumn 2 1 ([⟨4⟩, ⟨2⟩, ⟨1 / 4⟩, ⟨2⟩] : List (Fl f64grid)) = Fg := by
+    norm_num [luColumn, luDot, List.range_succ, rd, List.set, mk_sub_zero, mk_sub, mk_mul, zero_add_mk, r2, rq2, r32]
+  have hp : luPivot 2 1 Fg = 1 := by
+    norm_num [luPivot, List.range']
+  have hsc : luScale 2 1 Fg = Fg := by
+    norm_num [luScale, List.range']
+  simp only [luStep, hc, hp]
+  simp [hsc]
+
+/-- `lu` at the genuine model, with a row exchange (every operation exact) -/
+theorem Ag_lu : lu Ag = some (Fg, [1, 0]) := by
+  unfold lu
+  simp only [show Ag.length = 2 * 2 from rfl, isSquare_sq]
+  show some (luStep 2 (luStep 2 (Ag, [0, 1]) 0) 1) = _
+  rw [Ag_step0, Ag_step1]
+
+theorem Fg_pivots : ∀ k, k < 2 → ev 2 Fg k k ≠ 0 := by
+  intro k hk
+  have h : k = 0 ∨ k = 1 := by omega
+  rcases h with rfl | rfl <;> norm_num [ev, rd]
+
+/-- not symmetric, so `solve` takes the LU route -/
+theorem Ag_route : route Ag = some none := by
+  unfold route routePredicate isPositiveDefinite isSymmetric
+  simp only [show Ag.length = 2 * 2 from rfl, isSquare_sq]
+  norm_num [List.range_succ, List.range', rd, eps, Fl.lt_def, bigE, mk_sub, mk_abs, r0, rEps, rEps', rm1, rm2]
+
+theorem Ag_solve : ∃ x, solve Ag [⟨1⟩, ⟨4⟩] = some x := by
+  unfold solve
+  simp only [show Ag.length = 2 * 2 from rfl]
+  simp [Ag_route, solveWith, Ag_lu, luSolve, luPermute]
+
+/-- **`RoundingLU.solve_backward_error` at `u = 2⁻⁵³` on the LU route with a row exchange**: the second disjunct
+is the one that holds; no pivot of the computed factor vanishes (`Fg_pivots`) -/
+example : ∃ x, solve Ag [⟨1⟩, ⟨4⟩] = some x ∧ ∃ f piv, lu Ag = some (f, piv) ∧ ∀ k, k < 2 → ev 2 f k k ≠ 0 := by
+  obtain ⟨x, hx⟩ := Ag_solve
+  exact ⟨x, hx, Fg, [1, 0], Ag_lu, Fg_pivots⟩
+example := fun x (hx : solve Ag [⟨1⟩, ⟨4⟩] = some x) =>
+  solve_backward_error Ag [⟨1⟩, ⟨4⟩] x 2 rfl (le_refl 2) hx (by rw [f64grid_u]; norm_num)
+example := lu_backward_error Ag Fg [1, 0] 2 rfl Ag_lu Fg_pivots
+
+end Cv.RoundingGrid.LU
